@@ -3,7 +3,30 @@ package rules
 import (
 	"go/ast"
 	"go/token"
+	"go/types"
+
+	"verif/checker/core"
 )
+
+// assertFailedEdge selects the edges on which the `ok` of a comma-ok type
+// assertion made in f is known to be false (the value does not have the type).
+func assertFailedEdge(f *core.Func) core.EdgePred {
+	info := f.Info()
+	oks := map[types.Object]bool{}
+	ast.Inspect(f.Decl.Body, func(n ast.Node) bool {
+		if as, ok := n.(*ast.AssignStmt); ok && len(as.Lhs) == 2 && len(as.Rhs) == 1 {
+			if _, isTA := ast.Unparen(as.Rhs[0]).(*ast.TypeAssertExpr); isTA {
+				if o := core.ObjOf(info, as.Lhs[1]); o != nil {
+					oks[o] = true
+				}
+			}
+		}
+		return true
+	})
+	return core.AtomEdge(func(x ast.Expr, val bool) bool {
+		return !val && oks[core.ObjOf(info, x)]
+	})
+}
 
 // isLenMinusConst recognises `len(x) - c` / `n - c` with a literal c: an index
 // that always designates the same (last) element, i.e. not a scan.
